@@ -107,6 +107,10 @@ def vacuity(r):
         return "no scenario was dispatched successfully"
     if s.get("opp_pairs", 0) == 0 or s.get("follow_pairs", 0) == 0:
         return "no opposing / following pair of occupancy windows in any final plan"
+    # gate coverage: every term of the Level-B entry gate must have been the binding one somewhere in the run
+    for k in ("bind_base", "bind_spacing", "bind_flip", "bind_lock", "bind_lead"):
+        if s.get(k, 0) == 0:
+            return f"gate coverage: the term {k[5:]} of the entry gate was never binding in this run"
     return None
 
 
@@ -166,6 +170,10 @@ GROUP = dict(
     corrupt={"shift_plan_earlier": lambda ev: _shift(ev), "drop_train": lambda ev: _drop(ev),
              "break_backlink": lambda ev: _backlink(ev)},
     vacuity=vacuity,
+    drift_report=lambda r: (f"{r['stats'].get('tau_drift', 0)} of {r['stats'].get('tau_checked', 0)} node times differ from the gate "
+                            f"formula of Dispatch!Advance; {r['stats'].get('auth_disagree', 0)} snapshots whose authority table "
+                            f"disagrees with the plans; {r['stats'].get('committed_unstable', 0)} with changed committed nodes")
+    if (r["stats"].get("tau_drift", 0) or r["stats"].get("auth_disagree", 0) or r["stats"].get("committed_unstable", 0)) else None,
 )
 
 ENGINE = dict(name="Dispatch", path="specs/Dispatch.tla", serves_properties=["C04", "C05", "C15"],
